@@ -1,5 +1,4 @@
 P = dict(
-    wip=True,
     bin="egv_c12", trace="Trace_C12", level="model_checking",
     mc=[dict(module="MC_C12", quick_cfg="MC_C12.cfg", thorough_cfg="MC_C12.cfg")],
     required_events=["row", "rawrow"],
